@@ -232,13 +232,13 @@ class _Ctx:
         self.model = None         # a model of assumptions + pc (+ assumed unwinding assertions), when one is known
         self.last_model = None
 
-    def check(self, cond):
+    def check(self, cond, quick=False):
         """incremental solver first (short timeout); one-shot QF_BV solver as the fallback"""
         t0 = time.time()
         r = self.s.check(cond)
         self.nq += 1
         self.last_model = self.s.model() if r == z3.sat else None
-        if r == z3.unknown:
+        if r == z3.unknown and not quick:
             s = z3.SolverFor("QF_BV")
             s.set("timeout", self.timeout_ms)
             s.add(*self.assumptions)
@@ -674,7 +674,9 @@ class Interp:
         self.g = False
         raise _Dead()
 
-    def feasible(self, cond):
+    def feasible(self, cond, soft=False):
+        """is cond satisfiable together with assumptions + pc?  soft: a quick incremental query only, and
+        'undecided' counts as feasible (used to drop obviously dead raises; keeping one is always sound)"""
         if isinstance(cond, bool):
             return cond
         cond = z3.simplify(cond)
@@ -682,8 +684,10 @@ class Interp:
             return True
         if z3.is_false(cond):
             return False
-        r = self.ctx.check(cond)
+        r = self.ctx.check(cond, quick=soft)
         if r == z3.unknown:
+            if soft:
+                return True
             raise Inconclusive("feasibility of a loop/raise guard undecided within the decision timeout")
         if r == z3.unsat:
             # a fact the solver derived from assumptions + pc: keep it as a lemma (redundant, hence sound);
@@ -708,7 +712,7 @@ class Interp:
         """record `raise name` under guard g (absolute).  Infeasible raises are dropped."""
         if g is False:
             return False
-        if g is not True and not self.feasible(g):
+        if g is not True and not self.feasible(g, soft=True):
             return False
         self.ctx.raises.append((g, name))
         return True
@@ -1444,7 +1448,7 @@ class Interp:
                                 break
                             exits.append(g_and(self.g, z3.Not(ce)))
                             body_guard = gc
-                if it >= self.max_unroll:
+                if items is None and it >= self.max_unroll:
                     raise Unwind(f"unwinding assertion failed in {fr.qual} (bound {self.max_unroll})")
                 it += 1
                 # ---- one iteration under body_guard; states outside body_guard keep their values ---
